@@ -618,47 +618,85 @@ func (c *Ctx) runValidatorConsumer(prefix string, tables *plyTables) {
 		return "", false
 	}
 	validators := map[string]*types.Func{}
-	ast.Inspect(fd.Body, func(n ast.Node) bool {
-		var kind string
-		var body ast.Node
-		switch x := n.(type) {
-		case *ast.IfStmt:
-			k, ok := elemNameTest(x.Cond)
-			if !ok {
-				return true
-			}
-			kind, body = k, x.Body
-		case *ast.SwitchStmt:
-			for _, st := range x.Body.List {
-				if cl, ok := st.(*ast.CaseClause); ok {
-					if k, ok := elemNameCase(cl, x); ok {
-						for _, bs := range cl.Body {
-							ast.Inspect(bs, func(m ast.Node) bool {
-								if call, ok := m.(*ast.CallExpr); ok {
-									if f := calleeFunc(info, call); f != nil && strings.HasPrefix(f.Name(), "IsStandard") {
-										validators[k] = f
+	var findValidators func(root ast.Node)
+	findValidators = func(root ast.Node) {
+		ast.Inspect(root, func(n ast.Node) bool {
+			var kind string
+			var body ast.Node
+			switch x := n.(type) {
+			case *ast.IfStmt:
+				k, ok := elemNameTest(x.Cond)
+				if !ok {
+					return true
+				}
+				kind, body = k, x.Body
+			case *ast.SwitchStmt:
+				for _, st := range x.Body.List {
+					if cl, ok := st.(*ast.CaseClause); ok {
+						if k, ok := elemNameCase(cl, x); ok {
+							for _, bs := range cl.Body {
+								ast.Inspect(bs, func(m ast.Node) bool {
+									if call, ok := m.(*ast.CallExpr); ok {
+										if f := calleeFunc(info, call); f != nil && strings.HasPrefix(f.Name(), "IsStandard") {
+											validators[k] = f
+										}
 									}
-								}
-								return true
-							})
+									return true
+								})
+							}
 						}
 					}
 				}
-			}
-			return true
-		default:
-			return true
-		}
-		ast.Inspect(body, func(m ast.Node) bool {
-			call, ok := m.(*ast.CallExpr)
-			if !ok {
+				return true
+			default:
 				return true
 			}
-			if f := calleeFunc(info, call); f != nil && strings.HasPrefix(f.Name(), "IsStandard") {
-				validators[kind] = f
-			}
+			ast.Inspect(body, func(m ast.Node) bool {
+				call, ok := m.(*ast.CallExpr)
+				if !ok {
+					return true
+				}
+				if f := calleeFunc(info, call); f != nil && strings.HasPrefix(f.Name(), "IsStandard") {
+					validators[kind] = f
+				}
+				return true
+			})
 			return true
 		})
+	}
+	findValidators(fd.Body)
+	// header validation moved into a helper: a function of the package that the
+	// consumer calls with the declared elements and whose error it returns
+	ast.Inspect(fd.Body, func(n ast.Node) bool {
+		ifs, ok := n.(*ast.IfStmt)
+		if !ok || ifs.Init == nil {
+			return true
+		}
+		as, ok := ifs.Init.(*ast.AssignStmt)
+		if !ok || len(as.Rhs) != 1 {
+			return true
+		}
+		call, ok := ast.Unparen(as.Rhs[0]).(*ast.CallExpr)
+		if !ok {
+			return true
+		}
+		f := calleeFunc(info, call)
+		if f == nil || f.Pkg() != m3.Types {
+			return true
+		}
+		// the if must test the error and leave the function
+		leaves := false
+		for _, st := range ifs.Body.List {
+			if _, ok := st.(*ast.ReturnStmt); ok {
+				leaves = true
+			}
+		}
+		if be, ok := ast.Unparen(ifs.Cond).(*ast.BinaryExpr); !ok || be.Op != token.NEQ || !leaves {
+			return true
+		}
+		if hfd, _ := c.funcDecl(f); hfd != nil && hfd.Body != nil {
+			findValidators(hfd.Body)
+		}
 		return true
 	})
 	// admitted declarations per kind
